@@ -171,6 +171,26 @@ def check_insert(case, ctx):
     new_index = {"location": (ds2.ids.index(777) if 777 in ds2.ids else None),
                  "time": (ds2.times.index(86400 * 20000 + 3600 * 7) if (86400 * 20000 + 3600 * 7) in ds2.times else None),
                  "leadtime": (ds2.leads.index(999.0) if 999.0 in ds2.leads else None)}[dim]
+    # whole-array requests for several fields (what fss, droc, change, marginal ... ask for): a case that is missing
+    # in ANY of the requested fields is blanked in ALL of them
+    import verif.axis
+    from .. import gen
+    d_all = mat.make_data(spec2)
+    for F in gen.common_menu(spec2):
+        if len(F) < 2:
+            continue
+        vF = [mat.vfield(f) for f in F]
+        for i in range(len(spec2["inputs"])):
+            try:
+                arrs = d_all.get_scores(vF, i, verif.axis.All(), None)
+            except (Exception, SystemExit):
+                continue
+            ctx.evals += 1
+            masks = [np.isnan(np.asarray(a, float)) for a in arrs]
+            if any(m.shape != masks[0].shape or not np.array_equal(m, masks[0]) for m in masks[1:]):
+                ctx.fail("C04/whole-array/mask", dict(sub, fields=[list(f) for f in F], input=i),
+                         "whole-array request %r for input %d: the fields are not missing at the same cells (a case missing in one field still carries a number in another)" % (F, i))
+                break
     for name in ([case["metric"]] if case.get("metric") else case["metrics"]):
         args = mrun.args_for(spec, name)
         if args is None:
